@@ -127,8 +127,16 @@ def case_to_coq(I, c):
         log = coq_list(["(%d%%nat, {| o_q := %s; o_sql := %s; o_args := %s; o_ok := %s |})" % (
             e["inst"], b(e["call"]["q"]), I.s(e["call"]["sql"]), coq_list([arg_to_coq(I, a) for a in e["call"]["args"]]),
             b(e["call"]["ok"])) for e in cc["log"]])
-        conc = ("(Some {| cc_cfgs := %s; cc_eff := %s; cc_log := %s; cc_errs := %s; cc_done := %s; cc_ttl := %s; cc_policy := %s; cc_settings := %s |})"
-                % (coq_list([cfg_to_coq(I, x) for x in cc["cfgs"]]), coq_list(["%d%%nat" % k for k in cc["eff"]]), log,
+        own = {}
+        evs = []
+        faults = cc.get("faults") or []
+        for k in cc["eff"]:
+            j = own.get(k, 0)
+            own[k] = j + 1
+            ft = faults[k] if k < len(faults) else None
+            evs.append("SFail %d%%nat %s" % (k, b(ft["eff"])) if ft is not None and ft["at"] == j else "SStep %d%%nat" % k)
+        conc = ("(Some {| cc_cfgs := %s; cc_eff := %s; cc_evs := %s; cc_log := %s; cc_errs := %s; cc_done := %s; cc_ttl := %s; cc_policy := %s; cc_settings := %s |})"
+                % (coq_list([cfg_to_coq(I, x) for x in cc["cfgs"]]), coq_list(["%d%%nat" % k for k in cc["eff"]]), coq_list(evs), log,
                    coq_list([b(x) for x in cc["errs"]]), coq_list([b(x) for x in cc["done"]]), coq_list([I.s(tb[t]["ttl"]) for t in TABLES]),
                    coq_list([I.s(tb[t]["policy"]) for t in TABLES]),
                    coq_list(["(%s, %s)" % (coq_Z(x["fp"]), I.s(x["value"])) for x in cc["state"]["settings"]])))
@@ -140,7 +148,7 @@ def case_to_coq(I, c):
 def eval_cases(ck, name, cases):
     I = Interner()
     body = ";\n  ".join(case_to_coq(I, c) for c in cases)
-    txt = ("From Coq Require Import List ZArith Bool String Ascii.\nFrom Qryn Require Import model.Rotate model.RotateCfg model.RotateObs.\n"
+    txt = ("From Coq Require Import List ZArith Bool String Ascii.\nFrom Qryn Require Import model.Rotate model.RotateCfg model.RotateConc model.RotateObs.\n"
            "Import ListNotations.\nOpen Scope string_scope.\nOpen Scope Z_scope.\n" +
            "\n".join(I.defs) + "\n"
            "Definition cases : list case := [\n  " + body + "].\n"
@@ -182,7 +190,7 @@ def strip_obs(c):
            "init_tables": c.get("init_tables") or [],
            "runs": [strip_run(r) for r in c["runs"]]}
     if c.get("conc") is not None:
-        out["conc"] = {"cfgs": c["conc"]["cfgs"], "sched": c["conc"]["sched"], "crash": c["conc"].get("crash")}
+        out["conc"] = {"cfgs": c["conc"]["cfgs"], "sched": c["conc"]["sched"], "crash": c["conc"].get("crash"), "faults": c["conc"].get("faults")}
         out["after"] = [strip_run(r) for r in (c.get("after") or [])]
     return out
 
@@ -577,6 +585,8 @@ def run_rotate(ck):
     conc = {"cases": len(concs), "instances": sum(len(x["cfgs"]) for x in concs), "granted_statements": sum(len(x["eff"]) for x in concs),
             "same_configuration": sum(1 for x in concs if all(y == x["cfgs"][0] for y in x["cfgs"])),
             "with_crashed_instances": sum(1 for x in concs if not all(x["done"])),
+            "instances_ended_by_a_fault": sum(sum(1 for y in x["errs"] if y) for x in concs),
+            "faults_with_effect": sum(sum(1 for k, y in enumerate(x["errs"]) if y and (x.get("faults") or [])[k]["eff"]) for x in concs),
             "runs_after": sum(len(c.get("after") or []) for c in cases),
             "switches_between_instances": sum(sum(1 for a, bb in zip(x["eff"], x["eff"][1:]) if a != bb) for x in concs)}
     ck.coverage["evaluations"] += len(cases)
